@@ -137,8 +137,15 @@ def heap_excesses(js):
             bad.append(("alpha/string", "cross-tree: retained by %d small trees after a tree with %d-byte values (%d B) is gone"
                         % (c.get("groups", 0), c.get("value_bytes", 0), c.get("big_tree_bytes", 0)),
                         c["retained_by_the_small_trees_after_the_big_tree_is_gone"], HEAP_CROSS_RETAINED))
+    for b in js.get("big_values", []):
+        # large values: what stays beyond the remaining keys' own values, and after deleting everything, is a few KiB of nodes
+        for what in ("excess_after_deleting_some_bytes", "retained_after_deleting_everything"):
+            if b.get(what, 0) > HEAP_BIG_EXCESS:
+                bad.append(("alpha/string", "big values (%d keys of %d B, every iterator run once, %d keys left): %s"
+                            % (b.get("keys", 0), b.get("value_bytes", 0), b.get("remaining_keys", 0), what), b[what], HEAP_BIG_EXCESS))
     return bad
 
+HEAP_BIG_EXCESS = 256 * 1024
 HEAP_BULK_RETAINED = 512 * 1024
 HEAP_CROSS_RETAINED = 512 * 1024
 
@@ -173,7 +180,7 @@ def run_heap(ctx):
             if not [b for b in bad if b[0] == k["kind"]]:
                 kinds_ok.add((seed, k["kind"]))
         runs.append({"seed": seed, "n": N, "wall_s": round(time.time() - t0, 1), "noise_bytes": js.get("noise_bytes"), "kinds": js["kinds"],
-                     "bulk": js.get("bulk"), "cross_tree": js.get("cross_tree")})
+                     "bulk": js.get("bulk"), "cross_tree": js.get("cross_tree"), "big_values": js.get("big_values")})
         samples += [{"kind": k["kind"], "keys": k["keys"], "operations_per_phase": k["n"], "tree_bytes": k["built_bytes"],
                      "bytes_per_op": {"queries": k["query_bytes_per_op"], "overwrites": k["overwrite_bytes_per_op"], "churn": k["churn_bytes_per_op"]},
                      "retained_after_deleting_everything": k["empty_after_deletes_bytes"],
